@@ -292,6 +292,16 @@ func canon(s ast.Stmt) string {
 		if s.Init != nil {
 			out += src(s.Init) + "; "
 		}
+		// `if !c { A } else { B }` is `if c { B } else { A }`: one canonical text for both
+		if ue, ok := s.Cond.(*ast.UnaryExpr); ok && ue.Op == token.NOT {
+			if eb, ok := s.Else.(*ast.BlockStmt); ok {
+				cond := src(ue.X)
+				if pe, ok := ue.X.(*ast.ParenExpr); ok {
+					cond = src(pe.X)
+				}
+				return out + cond + " " + canonBlock(eb) + " else " + canonBlock(s.Body)
+			}
+		}
 		out += src(s.Cond) + " " + canonBlock(s.Body)
 		if s.Else != nil {
 			out += " else " + canon(s.Else)
@@ -460,6 +470,14 @@ func genStringHash() string {
 				"ne := make([]stringEntry, 0, len("+dr+".entries)-1)",
 				"for $i, $e := range "+dr+".entries { if $i != p { ne = append(ne, $e) } }",
 				dr+".entries = ne")) {
+				cut = true
+			}
+			// the same cut written with two copies
+			if i+3 < len(is.Body.List) && sameSrc(is.Body.List[i:i+4],
+				"ne := make([]stringEntry, len("+dr+".entries)-1)",
+				"copy(ne, "+dr+".entries[:p])",
+				"copy(ne[p:], "+dr+".entries[p+1:])",
+				dr+".entries = ne") {
 				cut = true
 			}
 		}
